@@ -251,6 +251,49 @@ def run(chk, prog, tier):
             e = [callee_name(x) for x in walk(kids(m)[2]) if x.get("kind") == "CallExpr"]
             ok = any("counting" in (x or "") for x in t) and not any("counting" in (x or "") for x in e) and "count" in expr_str(kids(m)[0])
             chk.require(ok, "SRC", "SRC/select@%s" % loc_str(m), loc_str(m), "the counting variant is chosen exactly when -b was given", expr_str(kids(m)[0]))
+    # ---- COUNTSUM: a per-line count is added to the total only after the counting call of that same line ------------
+    from valib.flow import Flow
+
+    class _Fresh:
+        """did the statement containing a call that receives &var execute on this path since the loop iteration began?"""
+        def __init__(self, var): self.var, self.viol, self.nsum = var, [], 0
+        def copy(self, s): return s
+        def join(self, a, b): return a and b
+        def equal(self, a, b): return a == b
+        def widen(self, o, n): return n
+        def decl(self, vd, s):
+            for c in kids(vd):
+                s = self.eval(c, s)
+            return s
+        def eval(self, e, s):
+            e0 = strip(e)
+            if not e0:
+                return s
+            for m_ in walk(e0):
+                if m_.get("kind") == "CallExpr" and any(strip(a).get("kind") == "UnaryOperator" and strip(a).get("opcode") == "&" and
+                                                      ref_name(kids(strip(a))[0]) == self.var for a in call_args(m_)):
+                    s = True
+                if m_.get("kind") == "BinaryOperator" and m_.get("opcode") == "=" and ref_name(kids(m_)[0]) == self.var:
+                    s = True
+            for m_ in walk(e0):
+                if m_.get("kind") == "CompoundAssignOperator" and m_.get("opcode") == "+=" and ref_name(kids(m_)[1]) == self.var:
+                    self.nsum += 1
+                    if not s:
+                        self.viol.append(m_)
+            return s
+        def assume(self, e, t, s): return s
+        def ret(self, n, s): pass
+    for lp in walk(prog.body(main)):
+        if lp.get("kind") in ("WhileStmt", "ForStmt", "DoStmt"):
+            addr_vars = {ref_name(kids(strip(a))[0]) for c in walk(lp) if c.get("kind") == "CallExpr" and "counting" in (callee_name(c) or "")
+                         for a in call_args(c) if strip(a).get("kind") == "UnaryOperator" and strip(a).get("opcode") == "&"}
+            for v in sorted(x for x in addr_vars if x):
+                dom = _Fresh(v)
+                Flow(dom).stmt(kids(lp)[-1], False)
+                if dom.nsum:
+                    chk.require(not dom.viol, "COUNTSUM", "COUNTSUM/%s" % v, loc_str(dom.viol[0]) if dom.viol else loc_str(lp),
+                                "inside the input loop the per-line count %s is added to the total only on paths that made the counting call for that line" % v,
+                                "a path reaches the addition without the call (a stale count of an earlier line would be added again)")
     # ---- EXIT: library failures reach a non-zero exit status ----------------------------------------------------
     kinds = {"asm_assemble_str": "status", "asm_assemble_file": "status", "asm_assemble_string_counting_chunks": "status",
              "asm_assemble_file_counting_chunks": "status", "asm_create_bin_file": "status"}
